@@ -14,6 +14,8 @@ func init() {
 }
 
 func runC18(e *Engine, r *Report) {
+	// borrowed mechanism (round 9): no campaign while a membership change is committed but not applied (C03): the campaign would run on the stale member set
+	borrow(e, r, "C03", "GD-campaign-pred")
 	// borrowed mechanisms (session 6, round 8): votes of non-members are dropped (C03); a replica changes kind only by promotion (C07)
 	borrow(e, r, "C03", "TBL-response-types")
 	borrow(e, r, "C07", "TBL-cc-predicate")
